@@ -195,9 +195,13 @@ def interest_item(sim, fe, it, r, idx):
     if fe == 'v2':
         vl.call(sim.app.attach_handler, prefix, handler_v2, route_v)
     else:
-        if app_v != 'default':
+        # the application-wide Interest validator is replaced before - or only after - the route is installed: the validator
+        # in force when the Interest arrives decides
+        if app_v != 'default' and not it.get('appv_late'):
             sim.app.int_validator = mk_validator('app', app_v, False)
         vl.call(sim.app.set_interest_filter, prefix, handler_legacy, route_v)
+        if app_v != 'default' and it.get('appv_late'):
+            sim.app.int_validator = mk_validator('app', app_v, False)
     if it.get('refused_dup'):
         # a second registration on the occupied prefix, with a permissive validator, is refused and must change nothing
         try:
@@ -268,7 +272,7 @@ def interest_item(sim, fe, it, r, idx):
     if verdict == 'RAISE_TIMEOUT':
         sim.vl.collect_errors()       # the validator's own exception ending its task is not this check's business
     nontriv = needs and (dg != 'correct' or rv == 'absent' or isinstance(rv, list) or rv not in ('PASS', 'FAIL', True, False))
-    return (fe, 'interest', kind, dg, repr(rv), repr(app_v), sigtype, bool(it.get('sigbad')), bool(it.get('refused_dup'))) if nontriv else ()
+    return (fe, 'interest', kind, dg, repr(rv), repr(app_v), sigtype, bool(it.get('sigbad')), bool(it.get('refused_dup')), bool(it.get('appv_late'))) if nontriv else ()
 
 
 def pair_item(sim, fe, it, r, idx):
@@ -366,6 +370,7 @@ def _grid_items(fe):
                             yield dict(base, app_validator=appv, sigtype=sigtype, sigbad=sigbad)
                     else:
                         yield dict(base, app_validator=appv)
+                        yield dict(base, app_validator=appv, appv_late=True)
 
 
 def _grid(tier):
